@@ -7,7 +7,7 @@
 (* WordGen!DrawFault) a failing read leads to the terminal state "panic"   *)
 (* from which nothing is returned, and Draw!ReadShort changes nothing but  *)
 (* the byte count: so an "error" run may only end in panic/error without a *)
-(* password, and a "short" run must return exactly what the base run did.  *)
+(* password, and a "short" run returns what the base run did (or aborts).   *)
 (***************************************************************************)
 EXTENDS TraceIO
 VARIABLES l, bad, done, stats
@@ -24,7 +24,10 @@ Whys(e) ==
     <<IF e.res.kind \notin {"panic", "err"} THEN "P:C09:a-password-was-returned-although-the-random-source-failed" ELSE "ok",
       IF e.res.kind = "err" THEN "S:source-failure-surfaced-as-an-error-value-instead-of-a-panic" ELSE "ok">>
   ELSE
-    <<IF e.same # 1 THEN "P:C09:result-depends-on-how-the-source-chunks-its-reads" ELSE "ok">>
+    \* short successful reads: the same choices (Draw!ReadShort) - or, by the property's second sentence, an abort without a password
+    \* ("fewer bytes than requested at any read ... generation aborts"): a DIFFERENT PASSWORD is the violation
+    <<IF e.same # 1 /\ e.res.kind \notin {"panic", "err"} THEN "P:C09:result-depends-on-how-the-source-chunks-its-reads" ELSE "ok",
+      IF e.same # 1 /\ e.res.kind \in {"panic", "err"} THEN "S:a-short-read-aborts-the-generation-instead-of-being-completed" ELSE "ok">>
 
 RECURSIVE BadOf(_,_,_)
 BadOf(line, ws, i) == IF i > Len(ws) THEN <<>>
